@@ -52,7 +52,7 @@ def dir_state(directory, local_ids, con=None, depth=0):
 class LayerRunner:
     cls = None
 
-    def __init__(self, cfg):
+    def __init__(self, cfg, directory=None):
         self.env = Env.get()
         self.rec = self.env.rec
         self.clock = self.env.clock
@@ -68,10 +68,12 @@ class LayerRunner:
         c.setdefault('shards', 1)
         self.cfg = c
         self.codec = Codec(c['disk'], c['proto'])
-        self.dir = tempfile.mkdtemp(prefix='l-', dir=scratch_root())
+        self.owns_dir = directory is None
+        self.dir = directory or tempfile.mkdtemp(prefix='l-', dir=scratch_root())
         self.rec.enabled = False
-        self.rec.file_ids = {}
-        self.rec.file_paths = {}
+        if self.owns_dir:
+            self.rec.file_ids = {}
+            self.rec.file_paths = {}
         self.obj = self.make()
         self.rec.enabled = True
         self.blocks = []
@@ -106,7 +108,8 @@ class LayerRunner:
                 self.obj.cache.close()
             except Exception:
                 pass
-        shutil.rmtree(self.dir, ignore_errors=True)
+        if self.owns_dir:
+            shutil.rmtree(self.dir, ignore_errors=True)
 
     # shared field encoders -------------------------------------------------------
     def enc_key(self, f, k):
@@ -327,7 +330,8 @@ class DequeRunner(LayerRunner):
             self.cache.close()
         except Exception:
             pass
-        shutil.rmtree(self.dir, ignore_errors=True)
+        if self.owns_dir:
+            shutil.rmtree(self.dir, ignore_errors=True)
 
     def call(self, op, f):
         d = self.obj
@@ -450,7 +454,8 @@ class IndexRunner(LayerRunner):
             self.cache.close()
         except Exception:
             pass
-        shutil.rmtree(self.dir, ignore_errors=True)
+        if self.owns_dir:
+            shutil.rmtree(self.dir, ignore_errors=True)
 
     def pair(self, kv):
         return '(%s,%s)' % (self.codec.render_key(kv[0]), self.codec.render_val(kv[1]))
